@@ -622,10 +622,16 @@ func (e *AnimEncoder) AddFrame(img image.Image, duration time.Duration) error {
 	}
 	// Fast path for pre-encoded bitstream data (no optimization possible).
 	if bf, ok := img.(*bitstreamFrame); ok {
-		e.frameCount++
-		return e.muxer.AddFrame(bf.data, &mux.FrameOptions{
+		err := e.muxer.AddFrame(bf.data, &mux.FrameOptions{
 			Duration: int(duration / time.Millisecond),
 		})
+		if err == nil {
+			e.frameCount++
+			// What a pre-encoded frame leaves on the canvas is unknown to the
+			// optimiser: the next picture must be coded as a key frame.
+			e.prevCanvas = nil
+		}
+		return err
 	}
 	// Use the registered encoder function with sub-frame optimization.
 	if FrameEncoderFunc != nil {
@@ -684,11 +690,13 @@ func (e *AnimEncoder) addOptimizedFrame(img image.Image, duration time.Duration)
 		currCanvas = full
 	}
 
-	isFirstFrame := e.frameCount == 0
+	// No known previous canvas: the very first frame, or the first picture
+	// after pre-encoded frames (AddRawFrame / NewBitstreamFrame).
+	isFirstFrame := e.prevCanvas == nil
 	durMS := int(duration / time.Millisecond)
 
 	if isFirstFrame {
-		// First frame is always a full-canvas keyframe.
+		// Such a frame is always a full-canvas keyframe.
 		bs, err := e.encodeFrame(currCanvas, e.opts.Lossless, e.opts.Quality)
 		if err != nil {
 			return fmt.Errorf("animation: encoding frame: %w", err)
@@ -1229,6 +1237,9 @@ func (e *AnimEncoder) AddRawFrame(bitstreamData []byte, duration time.Duration, 
 		// Count the frame: Close may only fall back to a plain still image
 		// when the animation really consists of a single picture.
 		e.frameCount++
+		// What a pre-encoded frame leaves on the canvas is unknown to the
+		// optimiser: the next picture must be coded as a key frame.
+		e.prevCanvas = nil
 	}
 	return err
 }
